@@ -203,7 +203,7 @@ def main():
         ],
         "checks": checks,
         "not_applicable": na,
-        "notes": "All checks: ./check <id> --tier quick|thorough; VERIF_SEED rotates additional background values (and the non-UTC process time zone of the main pass) only. Every command runs two passes: the main pass and, if that held, a second pass of the same check (quick-tier bounds) in a deliberately different process environment (python -O -X dev -W error, time zone on the other side of UTC, DEBUG logging, decimal precision 6, other hash seed, test-extra packages not importable; DESIGN.md 9.5); its coverage is merged into the same evidence file (coverage.hostile_environment_pass), a violation found there prints the usual VIOLATION line and its replay file is replayed in that environment by ./check <id> --replay. VERIF_SKIP_OPT_PASS=1 skips the second pass (debugging only). KNOWN_FINDINGS.json is read-only at run time. Besides the spaces named per check, every codec check explores call histories with the real objects (results kept / overwritten by the caller, one argument buffer overwritten in place between calls, failing calls first, 2^16 repetitions and 70 000 distinct inputs where a call leaves a trace in class/module data; mc/hist.py, DESIGN.md 9.4). /verif/seeded holds the confirmed property-breaking changes the checks were tried against, /verif/preserving 24 behaviour-preserving changes on which every check stays silent (tools/eval_preserving.sh).",
+        "notes": "All checks: ./check <id> --tier quick|thorough; VERIF_SEED rotates additional background values (and the non-UTC process time zone of the main pass) only. Every command runs two passes: the main pass and, if that held, a second pass of the same check (quick-tier bounds) in a deliberately different process environment (python -O -X dev -W error, time zone on the other side of UTC, DEBUG logging, decimal precision 6, other hash seed, test-extra packages not importable; DESIGN.md 9.5); its coverage is merged into the same evidence file (coverage.hostile_environment_pass), a violation found there prints the usual VIOLATION line and its replay file is replayed in that environment by ./check <id> --replay. VERIF_SKIP_OPT_PASS=1 skips the second pass (debugging only). KNOWN_FINDINGS.json is read-only at run time. Besides the spaces named per check, every codec check explores call histories with the real objects (results kept / overwritten by the caller, one argument buffer overwritten in place between calls, failing calls first, 2^16 repetitions and 70 000 distinct inputs where a call leaves a trace in class/module data; mc/hist.py, DESIGN.md 9.4). /verif/seeded holds the confirmed property-breaking changes the checks were tried against, /verif/preserving 48 behaviour-preserving changes on which every check stays silent (tools/eval_preserving.sh), /verif/mutants the records of a syntactic mutant sweep over all anchor files (tools/mutant_sweep.py; survivors read and classified). C17 additionally explores asyncio schedules on a virtual event loop (mc/vloop.py, DESIGN.md 9.6) and replays every transition of a TLC-checked TLA+ model against the real handlers (models/Hstrp.tla, checks/c17_tla.py, DESIGN.md 9.7; needs tlc on PATH, skipped with a note otherwise).",
     }
     with open(os.path.join(HERE, "MANIFEST.json"), "w") as f:
         json.dump(doc, f, indent=1)
